@@ -102,7 +102,7 @@ func (s *Solver) Transcript() []string {
 }
 
 func (s *Solver) send(line string) {
-	if s.record && !strings.HasPrefix(line, "(push") && !strings.HasPrefix(line, "(pop") && !strings.HasPrefix(line, "(check-sat") && !strings.HasPrefix(line, "(get-value") && !strings.HasPrefix(line, "(set-option") {
+	if s.record && !strings.HasPrefix(line, "(push") && !strings.HasPrefix(line, "(pop") && !strings.HasPrefix(line, "(check-sat") && !strings.HasPrefix(line, "(get-value") && !strings.HasPrefix(line, "(eval") && !strings.HasPrefix(line, "(set-option") {
 		for len(s.lines) <= s.level {
 			s.lines = append(s.lines, nil)
 		}
@@ -318,6 +318,24 @@ func (s *Solver) Values(names []string) map[string]uint64 {
 		j := i + 50
 		if j > len(names) {
 			j = len(names)
+		}
+		if s.kind != "cvc5" {
+			// z3: (get-value ...) re-processes every define-fun ever sent (cost grows with the history of the
+			// process, 0.5 s per call after ~10^4 definitions - measured, grpC notes); (eval c) does not.
+			for _, n := range names[i:j] {
+				s.send("(eval " + n + " :completion true)")
+			}
+			s.in.Flush()
+			for _, n := range names[i:j] {
+				line := s.readLine()
+				if strings.HasPrefix(line, "(error") {
+					s.Errors++
+					s.lastErr = line
+					continue
+				}
+				parseValues("(("+n+" "+line+"))", res)
+			}
+			continue
 		}
 		s.send("(get-value (" + strings.Join(names[i:j], " ") + "))")
 		s.in.Flush()
